@@ -3,7 +3,7 @@
 //! functions: AstSize::cost Extractor::extract WithOrdRev::cmp WithOrdRev::partial_cmp
 //! Bound: AstSize::cost on nodes with 0..4 children and child costs from {0, 1, 2, 7, u64::MAX-1, u64::MAX};
 //! WithOrdRev::partial_cmp / cmp on all pairs of costs from {0, 1, 2, 3, 10, u64::MAX}.
-//! Extractor::new / Extractor::extract (outside the contracts: BinaryHeap, class_nf, usages): 15 hand-written e-graphs
+//! Extractor::new / Extractor::extract (outside the contracts: BinaryHeap, class_nf, usages): 18 hand-written e-graphs
 //! with redundant slots / symmetric classes plus 150 (deep: 3000) pseudo-random ones (a term of depth <= 3 over a
 //! lambda/arithmetic language, a random subset of 17 rules, <= 3 rounds, <= 300 nodes); after every round EVERY class is
 //! extracted with AstSize (public entry point) and with five cost functions of the kinds C06 names (size, depth-weighted
@@ -80,13 +80,15 @@ const XRULES: [(&str, &str, &str); 17] = [
 ];
 /// cost functions of the three kinds C06 names; all are `own(node) + mult * sum(children)`, strictly monotone
 #[derive(Clone, Copy, Debug)]
-struct Lin { name: &'static str, mult: u64, weighted: bool, positional: bool }
+struct Lin { name: &'static str, mult: u64, weighted: bool, positional: bool, swapped: bool }
 impl Lin {
     /// the weight of the k-th child
     fn factor(&self, k: usize) -> u64 { if self.positional { 1 + 2 * k as u64 } else { self.mult } }
     fn own(&self, n: &XL) -> u64 {
         if !self.weighted { return 1; }
         // a constant may be heavier than a composite term
+        // `swapped`: the two constants trade weights - a class that holds both leaves is then asked for under both orders of preference
+        if self.swapped { return match n { XL::Zero() => 2, XL::One() => 9, XL::Var(_) => 5, XL::Mul(..) => 2, XL::Sub(..) => 3, XL::Lam(..) => 2, _ => 1 }; }
         match n { XL::Zero() => 10, XL::One() => 4, XL::Var(_) => 5, XL::Mul(..) => 2, XL::Sub(..) => 3, XL::Lam(..) => 2, _ => 1 }
     }
 }
@@ -98,8 +100,9 @@ impl CostFunction<XL> for Lin {
         s
     }
 }
-const COSTS: [Lin; 5] = [Lin { name: "AstSize-like", mult: 1, weighted: false, positional: false }, Lin { name: "depth-weighted (1 + 2*children)", mult: 2, weighted: false, positional: false }, Lin { name: "per-operator weights", mult: 1, weighted: true, positional: false },
-    Lin { name: "position weights (child k counts 1 + 2k times)", mult: 1, weighted: false, positional: true }, Lin { name: "per-operator and position weights", mult: 1, weighted: true, positional: true }];
+const COSTS: [Lin; 6] = [Lin { name: "AstSize-like", mult: 1, weighted: false, positional: false, swapped: false }, Lin { name: "depth-weighted (1 + 2*children)", mult: 2, weighted: false, positional: false, swapped: false }, Lin { name: "per-operator weights", mult: 1, weighted: true, positional: false, swapped: false },
+    Lin { name: "position weights (child k counts 1 + 2k times)", mult: 1, weighted: false, positional: true, swapped: false }, Lin { name: "per-operator and position weights", mult: 1, weighted: true, positional: true, swapped: false },
+    Lin { name: "per-operator weights, the two constants' weights swapped", mult: 1, weighted: true, positional: false, swapped: true }];
 /// least cost per class by a plain fixpoint over the e-nodes (independent of Extractor)
 fn reference_costs(eg: &XG, cf: &Lin) -> std::collections::HashMap<Id, u64> {
     let mut cost: std::collections::HashMap<Id, u64> = Default::default();
@@ -227,6 +230,11 @@ pub fn run(only: &[String]) -> Vec<String> {
             (vec!["zero", "(g one)"], vec![(0, 1)]),
             (vec!["(add zero (var $1))", "zero", "(g (g one))"], vec![(1, 2)]),
             (vec!["(sub (var $1) (var $1))", "zero", "(g one)", "(mul (sub (var $2) (var $2)) (var $3))"], vec![(0, 1), (1, 2)]),
+            // a class that holds TWO leaves of different weight (both insertion orders, both orders of preference through the swapped
+            // weights), with classes above it whose least cost depends on the lighter leaf (seed C06-i)
+            (vec!["zero", "one", "(g zero)", "(add zero (g one))"], vec![(0, 1)]),
+            (vec!["one", "zero", "(g one)", "(mul (g zero) one)", "(lam $1 (add (var $1) zero))"], vec![(0, 1)]),
+            (vec!["(var $1)", "zero", "one", "(sub (var $1) (var $1))", "(g (sub (var $2) (var $2)))"], vec![(1, 3), (2, 3)]),
         ];
         for (adds, unions) in hand {
             verif_case(format!("extract after: add {:?}; union {:?}", adds, unions));
